@@ -17,7 +17,8 @@ import vlib, trace
 import machine_common as mc
 from props import c04
 
-VFILES = ["Sync/SyncModel.v", "Machine/MachineModel.v", "Compose/ComposeModel.v"]
+VFILES = ["Sync/SyncModel.v", "Machine/MachineModel.v", "Compose/GenericModel.v", "Compose/Instances.v", "Compose/ComposeModel.v",
+          "Barrier/BarrierModel.v", "JoinCounter/JcModel.v", "Uncond/UncondModel.v"]
 SYNC_PUSH = ("wake1.push", "wakeany.push")
 
 
@@ -58,7 +59,7 @@ def compose_block(case_text, r):
     for ln, i in zip(mlines, msrc):
         if i is not None:
             per.setdefault(i, []).append(ln)
-    out = ["begin %d %d %d" % (nw, nt, nconds)]
+    out = ["begin sync %d %d %d" % (nw, nt, nconds)]
     in_sync_cb = {}
     stats = {"blocking": 0, "cb_end": 0, "sync_push": 0, "free_moves": 0}
     for i, row in enumerate(L):
